@@ -4,6 +4,15 @@ import json, os
 V = os.path.dirname(os.path.dirname(os.path.abspath(__file__)))
 
 CLAIMED = {
+ 'C08': dict(
+  text='Static decision of the structural clauses of UTF conversion safety and standard form: NUL-guarded cursor advance in every converter '
+       'and in count() (typestate over all CFG paths), the code-point enumerator never reports more bytes than it verified, bit-provenance '
+       'evaluation of every encoder/decoder branch against the RFC 3629 layout (thresholds, lead patterns, position of every payload bit, '
+       'surrogate constants), fixed output buffers hold the maximal output plus NUL, case tables cover every admitted index, keep ASCII in one '
+       'byte, never grow, agree at the cut-over, and case-insensitive comparison does not shortcut on byte length. '
+       'Exhaustive losslessness over all scalar values is not re-proved.',
+  technique='typestate dataflow over CFGs (NUL-guarded scan), abstract interpretation in a bit-provenance domain (encoder/decoder layouts vs RFC 3629), constant table evaluation',
+  ref='DESIGN.md section 3 C08'),
  'C03': dict(
   text='Static decision of the structural clauses behind String memory safety and integer conversion identity: no `const char*`/`const String&` '
        'argument (possibly the string itself or a piece of it) is used after the buffer was released or moved except through the offset re-basing '
